@@ -214,7 +214,9 @@ func c08Refs(excludeKnown bool) {
 			cur = nxt
 			if cur == n {
 				cyclic = true
-				if hasMerge || (hasInterp && (hasOther || hasMerge)) {
+				// cycles through a map-key $merge were known finding C08-K2a/b
+				// (repaired in /repo); what remains listed is the mixed case
+				if hasInterp && (hasOther || hasMerge) {
 					known = true
 				}
 				break
@@ -237,7 +239,10 @@ func c08Refs(excludeKnown bool) {
 
 // HarnessC08_witness: concrete witnesses of the known findings.
 func HarnessC08_witness() {
-	switch ndChoice(3) {
+	switch ndChoice(4) {
+	case 3: // C08-K2c: a cycle mixing "$merge:" and interpolation is accepted silently
+		_, err := c06Eval(map[string]any{"b": map[string]any{"r": "$merge:c"}, "c": map[string]any{"r": `$"{b.r}"`}})
+		vAssert("C08.cycle.reported", err != nil)
 	case 0: // C08-K2: a subtree merged into itself is accepted silently
 		_, err := c06Eval(map[string]any{"c": map[string]any{"$merge": "c"}})
 		vAssert("C08.cycle.reported", err != nil)
